@@ -15,6 +15,7 @@
 (* property - required or optional),                                       *)
 (* one-ofs differing in one feature (discriminator kind or field, one      *)
 (* member more / fewer / different), scopes with references, and recursive *)
+(* struct-mapped and typed objects, a scope of struct-mapped objects,      *)
 (* and mutually recursive scopes (through a property, a list, a map, a     *)
 (* one-of member), each with a variant that differs deep inside the cycle. *)
 (*                                                                         *)
@@ -23,7 +24,8 @@
 (*             pair of one family (plus one representative per family      *)
 (*             against every other)                                        *)
 (*   depth 3:  W1(W2(S)) against W1(W2(T)) for <<W1, W2>> in Wrap3 over    *)
-(*             the reduced universe U3                                     *)
+(*             the reduced universe U3 (pairs of one family, plus any as   *)
+(*             consumer and as producer against one of every family)       *)
 (*                                                                         *)
 (* Modes: "direct" (both built independently from the AST), "self" (the    *)
 (* producer is the very same Go value), "rb" / "ra" (producer / consumer   *)
@@ -55,6 +57,8 @@ Simple     == {BoolS, PatternS, AnyS}
 \* objects: O0 and its single-feature mutations
 P0 == {Prop("p", IntU, TRUE), Prop("q", Str, FALSE)}
 O0 == Object("O", P0, FALSE)
+OM == ObjectI("O", P0, FALSE, "mapped")
+OT == ObjectI("O", P0, FALSE, "typed")
 Objects == { O0,
              Object("P", P0, FALSE),                                                   \* another ID
              Object("P", P0, TRUE),                                                    \* another ID, not enforced
@@ -73,7 +77,8 @@ Objects == { O0,
              Object("O", {Prop("p", IntU, TRUE), PropX("q", Str, TRUE, TRUE, FALSE)}, FALSE),    \* q required, with a default
              \* disabled properties: every such object is compatible with itself and its rebuilt copy
              Object("O", P0 \cup {PropX("r", BoolS, FALSE, FALSE, TRUE)}, FALSE),                \* one optional disabled property more
-             Object("O", {PropX("p", IntU, TRUE, FALSE, TRUE), Prop("q", Str, FALSE)}, FALSE) }  \* p disabled
+             Object("O", {PropX("p", IntU, TRUE, FALSE, TRUE), Prop("q", Str, FALSE)}, FALSE),   \* p disabled
+             OM, OT }                                                                  \* O0 struct-mapped / as a typed object
 
 \* one-ofs: X0 and its single-feature mutations
 MA == Object("MA", {Prop("x", IntU, TRUE)}, FALSE)
@@ -92,7 +97,10 @@ OneOfs == { X0,
 SC(x, req) == Object("C", {Prop("x", x, req)}, FALSE)
 SR(c) == Object("O", {Prop("p", IntU, TRUE), Prop("c", c, FALSE)}, FALSE)
 S0 == Scope("O", {SR(Ref("C")), SC(Str, TRUE)})
-Scopes == { S0,
+\* S0 with struct-mapped objects: the scope and the reference reflect as the Go struct
+SM == Scope("O", { ObjectI("O", {Prop("p", IntU, TRUE), Prop("c", Ref("C"), FALSE)}, FALSE, "mapped"),
+                   ObjectI("C", {Prop("x", Str, TRUE)}, FALSE, "mapped") })
+Scopes == { S0, SM,
             Scope("O", {SR(Ref("C")), SC(IntU, TRUE)}),                                \* referenced object differs in a kind
             Scope("O", {SR(Ref("C")), SC(Str, FALSE)}),                                \* ... in "required"
             Scope("O", {SR(Ref("D")), Object("D", {Prop("x", Str, TRUE)}, FALSE)}),    \* ... in its ID
@@ -118,11 +126,14 @@ Universe(B, E) == Scalars(B) \cup Lists(B) \cup Maps(B) \cup Enums(E) \cup Simpl
 U0 == Universe(BoundsOf(MinVals, MaxVals), EnumSets)
 U3 == Scalars(BoundsOf(MinVals3, MaxVals3)) \cup Lists(BoundsOf(MinVals3, MaxVals3))
       \cup Maps(BoundsOf(MinVals3, MaxVals3)) \cup Enums(EnumSets3) \cup Simple
-      \cup Objects \cup OneOfs \cup {S0, Rec1(IntU), Rec1(Str)}
+      \cup Objects \cup OneOfs \cup {S0, SM, Rec1(IntU), Rec1(Str)}
 
 \* one representative per family, compared across families below the wrappers
 Reps == {IntU, FloatU, Str, BoolS, PatternS, AnyS, List(BoolS, None, None), Map(Str, BoolS, None, None),
-         Enum("enum_int", {1}, FALSE), Enum("enum_string", {1}, FALSE), O0, X0, S0, Rec1(IntU)}
+         Enum("enum_int", {1}, FALSE), Enum("enum_string", {1}, FALSE), O0, OM, OT, X0, S0, SM, Rec1(IntU)}
+\* ... and below the wrapper pairs of depth 3 (any and pattern against every kind, three levels down)
+Reps3 == {IntU, FloatU, Str, BoolS, PatternS, AnyS, List(BoolS, None, None), Map(Str, BoolS, None, None),
+          O0, OM, OT, X0, S0, SM} \cup {e \in U3 : e.kind \in {"enum_int", "enum_string"} /\ ~e.named}
 
 \* ------------------------------------------------------------------ wrappers
 Wrappers == {"list", "mapval", "mapkey", "prop", "scope", "ref", "member"}
@@ -158,7 +169,7 @@ Init ==
           /\ CanWrap(w, s) /\ CanWrap(w, t)
           /\ \E m \in Modes(W(w, s), W(w, t)) : v = Case(W(w, s), W(w, t), m)
     \/ \E ww \in Wrap3 : \E s \in U3 : \E t \in U3 :
-          /\ Related(s, t)
+          /\ Related(s, t) \/ (s \in Reps3 /\ t \in Reps3 /\ "any" \in {s.kind, t.kind})
           /\ CanWrap(ww[2], s) /\ CanWrap(ww[2], t) /\ ww[1] # "mapkey"
           /\ \E m \in Modes(W(ww[1], W(ww[2], s)), W(ww[1], W(ww[2], t))) :
                 v = Case(W(ww[1], W(ww[2], s)), W(ww[1], W(ww[2], t)), m)
